@@ -40,6 +40,7 @@ from ..evidence import Report
 from ..expr_eval import evaluate
 
 PROP = "C13"
+WORKERS = 8          # TLC workers / replay processes (shared machine)
 
 
 # --------------------------------------------------------------------------------------------
@@ -106,57 +107,82 @@ LAYOUT_INVARIANTS = [
     "StridesAgree", "IndexIsBijection", "LexicographicOrder", "NumpyUniformLayout", "NumpyTensorLayout",
     "Separable", "PointLawInjective", "CodeMapsAreTheDefinition", "RoundTrips", "LastIndexFastest",
     "JudgeI2C", "JudgeC2I", "JudgePoints", "JudgeWeights", "JudgeAlong", "JudgeSeparable", "ObsCoverShapes",
+    "JudgeAttrs", "JudgeBig", "BigCasesAdmissible", "PermNodesAdmissible",
 ]
+REAL_W_RTOL = 8 * 2.220446049250313e-16     # product of three doubles, any association: <= 2 roundings (2.3 eps)
+REAL_INT_RTOL = 1e-12                       # tensor integral vs product of 1D integrals; measured <= 5e-16 of sum |w f|
 
 
-def _blank(kind, shape):
+def _blank(kind, shape, variant=""):
     return {"kind": kind, "shape": list(shape), "origin": [], "axes": [], "nodes": [], "w1d": [],
-            "i2c": [], "c2i": [], "pts": [], "wts": [], "along": [], "integ": []}
+            "i2c": [], "c2i": [], "pts": [], "wts": [], "along": [], "integ": [], "attrs": [], "samples": [],
+            "variant": variant}
 
 
-def _index_maps(g, shape, rec, fail):
+def _attrs(g):
+    return [_int(g.ndim), _int(g.size)] + [_int(v) for v in g.shape]
+
+
+def _index_maps(g, shape, rec, fail, variant="py"):
+    """All indices / all coordinates through both maps.  variant = representation of the arguments:
+    py (Python int, tuple of Python ints), np (numpy.int64, one-dimensional integer array - the form
+    closest_point uses), list (numpy.int32, list of Python ints)."""
     n = int(np.prod(shape))
+    mk = {"py": int, "np": np.int64, "list": np.int32}[variant]
     try:
-        rec["i2c"] = [[_int(v) for v in g.index_to_coordinates(i)] for i in range(n)]
+        rec["i2c"] = [[_int(v) for v in g.index_to_coordinates(mk(i))] for i in range(n)]
     except Exception as e:
         fail("index_to_coordinates", e)
     try:
         out = []
-        for c in np.ndindex(*shape):
-            out.append([list(map(int, c)), _int(g.coordinates_to_index(tuple(int(v) for v in c)))])
+        allc = [list(map(int, c)) for c in np.ndindex(*shape)]
+        if variant == "np":
+            out = [[c, _int(g.coordinates_to_index(np.array(c)))] for c in allc]
+        else:
+            for c in allc:
+                arg = tuple(c) if variant == "py" else list(c)
+                out.append([c, _int(g.coordinates_to_index(arg))])
         rec["c2i"] = out
     except Exception as e:
         fail("coordinates_to_index", e)
 
 
-def _obs_uniform(shape, origin, axes, full, along, fail):
+def _obs_uniform(shape, origin, axes, full, along, fail, den=1, dtype=float, variant="py"):
     from grid.cubic import UniformGrid
-    rec = _blank("uniform", shape)
+    rec = _blank("uniform", shape, variant)
     rec["origin"], rec["axes"] = list(origin), [list(r) for r in axes]
+    o, a, sh = np.array(origin, dtype), np.array(axes, dtype), np.array(shape, int)
+    if den != 1:
+        o, a = o / den, a / den
+    keep = (o.copy(), a.copy(), sh.copy())
     try:
-        g = UniformGrid(np.array(origin, float), np.array(axes, float), np.array(shape, int))
+        g = UniformGrid(o, a, sh)
     except Exception as e:
         fail("UniformGrid", e)
         return rec
     try:
-        rec["pts"] = _ints(g.points)
+        rec["pts"] = _ints(np.asarray(g.points) * den)
+        rec["attrs"] = _attrs(g)
     except Exception as e:
         fail("points", e)
     if full:
-        _index_maps(g, shape, rec, fail)
+        _index_maps(g, shape, rec, fail, variant)
     if along:
         try:
-            rec["along"] = [_ints(a) for a in g.get_points_along_axes()]
+            rec["along"] = [_ints(np.asarray(x) * den) for x in g.get_points_along_axes()]
         except Exception as e:
             fail("get_points_along_axes", e)
+    if not (np.array_equal(keep[0], o) and np.array_equal(keep[1], a) and np.array_equal(keep[2], sh)
+            and np.array_equal(keep[0], g.origin) and np.array_equal(keep[1], g.axes)):
+        fail("state", ValueError("origin / axes / shape arrays changed while the grid was built and queried"))
     return rec
 
 
-def _obs_tensor(case, fail):
+def _obs_tensor(case, fail, variant="py"):
     from grid.basegrid import OneDGrid
     from grid.cubic import Tensor1DGrids
     shape = case["shape"]
-    rec = _blank("tensor", shape)
+    rec = _blank("tensor", shape, variant)
     rec["nodes"], rec["w1d"] = case["nodes"], case["w1d"]
     try:
         oned = [OneDGrid(np.array(p, float), np.array(w, float)) for p, w in zip(case["nodes"], case["w1d"])]
@@ -169,9 +195,12 @@ def _obs_tensor(case, fail):
             raise ValueError(f"shape attribute {g.shape}")
         rec["pts"] = _ints(g.points)
         rec["wts"] = _ints(g.weights)
+        rec["attrs"] = _attrs(g)
+        if not np.array_equal(np.asarray(g.origin), np.asarray(g.points)[0]):
+            raise ValueError(f"origin attribute {g.origin} is not the first point {g.points[0]}")
     except Exception as e:
         fail("points/weights", e)
-    _index_maps(g, shape, rec, fail)
+    _index_maps(g, shape, rec, fail, variant)
     try:
         rec["along"] = [_ints(a) for a in g.get_points_along_axes()]
     except Exception as e:
@@ -187,9 +216,98 @@ def _obs_tensor(case, fail):
     return rec
 
 
+def _obs_big(c, kind, fail):
+    """Sampled indices of a large shape: [index, index_to_coordinates, coordinates_to_index of that, point]."""
+    from grid.basegrid import OneDGrid
+    from grid.cubic import Tensor1DGrids, UniformGrid
+    shape = c["shape"]
+    rec = _blank(kind, shape)
+    try:
+        if kind == "big-uniform":
+            rec["origin"], rec["axes"] = c["origin"], c["skew"]
+            g = UniformGrid(np.array(c["origin"], float), np.array(c["skew"], float), np.array(shape, int))
+        else:
+            rec["nodes"] = c["nodes"]
+            g = Tensor1DGrids(*[OneDGrid(np.array(p, float), np.ones(len(p))) for p in c["nodes"]])
+        rec["attrs"] = _attrs(g)
+        pts = np.asarray(g.points)
+    except Exception as e:
+        fail("construct", e)
+        return rec
+    out = []
+    for k, idx in enumerate(c["sample"]):
+        try:
+            co = [_int(v) for v in g.index_to_coordinates(np.int64(idx) if k % 2 else int(idx))]
+            back = _int(g.coordinates_to_index(tuple(co) if k % 2 else np.array(co)))
+            out.append([int(idx), co, back, _ints(pts[idx])])
+        except Exception as e:
+            fail(f"index maps at {idx}", e)
+    rec["samples"] = out
+    return rec
+
+
+def _obs_realtensor(rep, c, obs):
+    """Tensor product of the library's 1D quadratures: the tuple law as an integer observation (position
+    of every coordinate in the 1D node array, bit-identical) for the TLC judge; weights = products of
+    the 1D weights and separable integral = product of the 1D integrals in floating point."""
+    import grid.onedgrid as og
+    from grid.cubic import Tensor1DGrids
+    key = "tensor-real:" + "x".join(f"{n}({m})" for n, m in zip(c["grids"], c["sizes"]))
+    rec = _blank("tensor", c["sizes"], "real")
+    rec["nodes"] = [list(range(m)) for m in c["sizes"]]
+    try:
+        oned = [getattr(og, nm)(m) for nm, m in zip(c["grids"], c["sizes"])]
+        g = Tensor1DGrids(*oned)
+        pts, wts = np.asarray(g.points, float), np.asarray(g.weights, float)
+        ranks = []
+        for d, o in enumerate(oned):
+            lut = {float(x): i for i, x in enumerate(np.asarray(o.points, float))}
+            if len(lut) != len(o.points):
+                raise tlc.MachineryError(f"{key}: repeated 1D node")
+            ranks.append([lut.get(float(x), -1) for x in pts[:, d]])
+        rec["pts"] = [list(t) for t in zip(*ranks)]
+        rec["attrs"] = _attrs(g)
+        rec["along"] = [[{float(x): i for i, x in enumerate(np.asarray(o.points, float))}.get(float(v), -1) for v in a]
+                        for o, a in zip(oned, g.get_points_along_axes())]
+    except tlc.MachineryError:
+        raise
+    except Exception as e:
+        rep.violation(f"layout:{key}:construct", f"Tensor1DGrids of {c['grids']} {c['sizes']} raised {type(e).__name__}: {e}")
+        obs.append(rec)
+        return
+    obs.append(rec)
+    if min(min(r) for r in ranks) < 0 or len(wts) != len(pts):
+        return            # reported by the judge (points) / nothing to compare
+    want = np.ones(len(pts))
+    for d, o in enumerate(oned):
+        want = want * np.asarray(o.weights, float)[ranks[d]]
+    err = float(np.max(np.abs(wts - want) / np.abs(want)))
+    _stat("tensor_real_weight_relerr", err)
+    if not err <= REAL_W_RTOL:
+        i = int(np.argmax(np.abs(wts - want) / np.abs(want)))
+        rep.violation(f"layout:{key}:weights", f"Tensor1DGrids of {c['grids']} {c['sizes']}: weight {i} is {wts[i]!r}, product of the 1D "
+                                               f"weights at coordinates {[r[i] for r in ranks]} is {want[i]!r}", {"case": c})
+    f1d = [np.asarray(o.points, float) ** p for o, p in zip(oned, c["powers"])]
+    vals = np.ones(len(pts))
+    for d, p in enumerate(c["powers"]):
+        vals = vals * pts[:, d] ** p
+    try:
+        got = float(g.integrate(vals))
+        prod = float(np.prod([o.integrate(f) for o, f in zip(oned, f1d)]))
+        mag = float(np.sum(np.abs(wts * vals))) or 1.0
+        _stat("tensor_real_integral_relerr", abs(got - prod) / mag)
+        if not abs(got - prod) <= REAL_INT_RTOL * mag:
+            rep.violation(f"layout:{key}:separable-integral",
+                          f"Tensor1DGrids of {c['grids']} {c['sizes']}: integral of x^a y^b z^c, powers {c['powers']}, is {got!r}; "
+                          f"product of the 1D integrals {prod!r}", {"case": c})
+    except Exception as e:
+        rep.violation(f"layout:{key}:integrate", f"integrate raised {type(e).__name__}: {e}")
+
+
 def _family_layout(rep: Report, tier: str, wd: Path):
     consts = {"MinM": 2, "MaxM": 4 if tier == "quick" else 5, "NumpyMaxM": 3 if tier == "quick" else 4,
-              "Seed": rep.seed, "NRandom3": 300 if tier == "quick" else 3000, "AllSmall3": tier != "quick"}
+              "Seed": rep.seed, "NRandom3": 300 if tier == "quick" else 3000, "AllSmall3": tier != "quick",
+              "VarMod": 3 if tier == "quick" else 1}
     _obs_module(wd, "Obs_layout", "LayoutObs", None)
     cases, _ = _emit("MC_CubicLayout", wd, consts, "cases_layout.json")
     obs = []
@@ -206,6 +324,29 @@ def _family_layout(rep: Report, tier: str, wd: Path):
         obs.append(_obs_uniform(sh, c["origin"], c["diag"], False, True, failer(f"uniform:diag:shape={tag}")))
         obs.append(_obs_tensor(c, failer(f"tensor:shape={tag}")))
         rep.evaluated(3, ("layout", tag))
+    nshape_obs = len(obs)
+    for c in cases["shapes"]:
+        if not c["variants"]:
+            continue
+        sh = c["shape"]
+        tag = "x".join(map(str, sh))
+        # non-integer origin / axes (integer grid / 2^k), numpy integers and vectorised coordinates_to_index
+        obs.append(_obs_uniform(sh, c["origin"], c["skew"], True, False, failer(f"uniform:skew/{c['den']}:shape={tag}"),
+                                den=c["den"], variant="np"))
+        # origin and axes handed in as integer arrays
+        obs.append(_obs_uniform(sh, c["origin"], c["diag"], False, True, failer(f"uniform:diag-int-arrays:shape={tag}"),
+                                dtype=int, variant="int-arrays"))
+        # 1D nodes that are not sorted; numpy.int32 indices and lists of coordinates
+        obs.append(_obs_tensor({**c, "nodes": c["permnodes"]}, failer(f"tensor:unsorted-nodes:shape={tag}"), variant="list"))
+        rep.evaluated(3, ("layout-variants", tag))
+    for c in cases["big"]:
+        tag = "x".join(map(str, c["shape"]))
+        obs.append(_obs_big(c, "big-uniform", failer(f"uniform:big:shape={tag}")))
+        obs.append(_obs_big(c, "big-tensor", failer(f"tensor:big:shape={tag}")))
+        rep.evaluated(2, ("layout-big", tag))
+    for c in cases["realtensor"]:
+        _obs_realtensor(rep, c, obs)
+        rep.evaluated(1, ("layout-real", tuple(c["grids"])))
     for a in cases["axes2"]:
         obs.append(_obs_uniform([2, 3], [1, -2], a, False, False, failer(f"uniform:axes={a}")))
     for a in cases["axes3"]:
@@ -215,12 +356,14 @@ def _family_layout(rep: Report, tier: str, wd: Path):
     nax = len(cases["axes2"]) + len(cases["axes3"]) + len(cases["random3"])
     rep.evaluated(nax, ("layout", "axes"))
     rep.set("layout_axes_cases", nax)
-    rep.sample({"family": "layout", "case": cases["shapes"][-1], "observed_points_head": obs[3 * len(cases["shapes"]) - 3]["pts"][:4]})
+    rep.set("layout_variant_records", len(obs) - nax - nshape_obs)
+    rep.sample({"family": "layout", "case": {k: v for k, v in cases["shapes"][-1].items()},
+                "observed_points_head": obs[3 * len(cases["shapes"]) - 3]["pts"][:4]})
     with open(wd / "obs_layout.json", "w") as f:
         json.dump(obs, f)
     _obs_module(wd, "Obs_layout", "LayoutObs", "obs_layout.json")
     cfg = _cfg(wd, "MC_CubicLayout.cfg", {**consts, "Emit": False}, LAYOUT_INVARIANTS)
-    res = tlc.run_tlc("MC_CubicLayout", cfg, wd, workers=16, timeout=1500).require_ok("MC_CubicLayout")
+    res = tlc.run_tlc("MC_CubicLayout", cfg, wd, workers=WORKERS, timeout=1500).require_ok("MC_CubicLayout")
     rep.tlc(res, "MC_CubicLayout")
     _model_violation(rep, res, "layout")
     for t in _tagged(res.stdout, "MISMATCH"):
@@ -230,11 +373,13 @@ def _family_layout(rep: Report, tier: str, wd: Path):
             continue
         o = obs[r - 1]
         where = f"shape={'x'.join(map(str, o['shape']))}"
-        if o["kind"] == "uniform":
+        if o["kind"] in ("uniform", "big-uniform"):
             where += f":axes={o['axes']}"
+        if o["variant"]:
+            where += f":{o['variant']}"
         rep.violation(f"layout:{o['kind']}:{clause}:{where}",
                       f"{o['kind']} grid {where}: {clause} at {at}: specification {want}, implementation {got}",
-                      {"record": {k: v for k, v in o.items() if k in ('kind', 'shape', 'origin', 'axes', 'nodes', 'w1d')},
+                      {"record": {k: v for k, v in o.items() if k in ('kind', 'shape', 'origin', 'axes', 'nodes', 'w1d', 'variant')},
                        "clause": clause, "at": at, "spec": want, "observed": got})
     return len(obs)
 
@@ -252,65 +397,99 @@ def _stat(name, value):
     STATS[name] = max(STATS.get(name, 0.0), float(value))
 
 
+SCHEMES = ("Rectangle", "Trapezoid", "Alternative", "Fourier1", "Fourier2")
+
+
 def _family_weights(rep: Report, tier: str, wd: Path):
     from grid.cubic import UniformGrid
     consts = {"MaxW": 8 if tier == "quick" else 12, "CaseMax": 4 if tier == "quick" else 5}
-    cfg = _cfg(wd, "MC_CubicWeights.cfg", {**consts, "Emit": True}, ["WeightSumBound", "WeightSums", "VolumeLaw"])
-    res = tlc.run_tlc("MC_CubicWeights", cfg, wd, workers=16, timeout=900).require_ok("MC_CubicWeights")
+    cfg = _cfg(wd, "MC_CubicWeights.cfg", {**consts, "Emit": True}, ["WeightSumBound", "WeightSums", "VolumeLaw", "VolumeHomogeneous"])
+    res = tlc.run_tlc("MC_CubicWeights", cfg, wd, workers=WORKERS, timeout=900).require_ok("MC_CubicWeights")
     rep.tlc(res, "MC_CubicWeights")
     _model_violation(rep, res, "weights")
     with open(wd / "cases_weights.json") as f:
         cases = json.load(f)
     n = 0
+    files = wd / "wcube"
+    files.mkdir(exist_ok=True)
+
+    def judge(c, scheme, build, vol, route, values=True):
+        """Construct through `build` and compare with the documented scheme on the volume `vol`.
+        route = "" (the constructor itself; keys as in round 0) or a tag of the alternative route."""
+        shape = c["shape"]
+        dim = len(shape)
+        tag = "x".join(map(str, shape)) + (f":{route}" if route else "")
+        bound = Fraction(*c["bound"])
+        how = f"UniformGrid(shape={shape}, weight={scheme!r})" + (f" via {route}" if route else "")
+        rep.evaluated(1, ("weights", scheme, dim, route.split("=")[0]))
+        try:
+            g = build()
+            w = np.asarray(g.weights, float)
+            if w.shape != (int(np.prod(shape)),) or not np.all(np.isfinite(w)):
+                raise ValueError(f"weights have shape {w.shape} / non-finite entries")
+        except Exception as e:
+            rep.violation(f"weights:{scheme}:dim={dim}:construct:shape={tag}",
+                          f"{how} does not construct: {type(e).__name__}: {e}",
+                          {"shape": shape, "axes": c["axes"], "scheme": scheme, "route": route})
+            return
+        dev = abs(float(w.sum()) / vol - 1.0)
+        if dev > float(bound) + W_SUM_SLACK:
+            rep.violation(f"weights:{scheme}:dim={dim}:sum-bound:shape={tag}",
+                          f"{how}: |sum(w)/V - 1| = {dev:.6g} exceeds sum(1/M_i) = {float(bound):.6g} "
+                          f"(sum(w) = {w.sum():.6g}, V = {vol}, min weight {w.min():.3g})",
+                          {"shape": shape, "axes": c["axes"], "scheme": scheme, "deviation": dev, "bound": float(bound), "route": route})
+        key = {"Rectangle": "rect", "Trapezoid": "trap", "Alternative": "alt"}.get(scheme)
+        if key:
+            want = float(Fraction(*c[key]) * Fraction(vol))
+            err = float(np.max(np.abs(w - want))) / want
+            _stat("weights_rational_relerr", err)
+            if err > W_RTOL:
+                rep.violation(f"weights:{scheme}:dim={dim}:value:shape={tag}",
+                              f"{how}: documented weight {want!r}, implementation "
+                              f"{w[int(np.argmax(np.abs(w - want)))]!r}",
+                              {"shape": shape, "axes": c["axes"], "scheme": scheme, "spec": want, "route": route})
+        elif scheme == "Fourier1" and values:
+            names = ["i", "j", "k"][:dim]
+            worst, at = 0.0, None
+            for flat, idx in enumerate(np.ndindex(*shape)):
+                env = {nm: int(v) + 1 for nm, v in zip(names, idx)}
+                want = vol * evaluate(c["fourier1"], env, "float")
+                err = abs(w[flat] - want) / abs(want)
+                if err > worst:
+                    worst, at = err, (idx, want, float(w[flat]))
+            _stat("weights_fourier1_relerr", worst)
+            if worst > W_F1_RTOL:
+                rep.violation(f"weights:Fourier1:dim={dim}:value:shape={tag}",
+                              f"{how}: at coordinates {at[0]} documented weight {at[1]!r}, "
+                              f"implementation {at[2]!r}", {"shape": shape, "axes": c["axes"], "at": list(at[0]), "route": route})
+
     for c in cases:
         shape = c["shape"]
         dim = len(shape)
-        tag = "x".join(map(str, shape))
-        vol = c["volume"]
-        bound = Fraction(*c["bound"])
-        for scheme in ("Rectangle", "Trapezoid", "Alternative", "Fourier1", "Fourier2"):
+        small = tier != "quick" or np.prod(shape) <= 200
+        axes = np.array(c["axes"], float)
+        den = int(c["den"])
+        for scheme in SCHEMES:
             n += 1
-            rep.evaluated(1, ("weights", scheme, dim))
+            judge(c, scheme, lambda: UniformGrid(np.zeros(dim), axes, np.array(shape, int), weight=scheme), c["volume"], "", small)
+        # non-integer axes, non-zero origin, 32-bit shape array
+        for scheme in SCHEMES[:4]:
+            n += 1
+            judge(c, scheme, lambda: UniformGrid(np.array(c["origin"], float) / den, axes / den, np.array(shape, np.int32), weight=scheme),
+                  float(Fraction(*c["volume_scaled"])), f"axes/{den}", small and np.prod(shape) <= 60)
+        # the scheme handed on by from_cube (integer geometry is printed without rounding)
+        if c["routes"] and (tier != "quick" or (sum(shape) + rep.seed) % 2 == 0):
+            fname = str(files / ("w" + "x".join(map(str, shape)) + ".cube"))
             try:
-                g = UniformGrid(np.zeros(dim), np.array(c["axes"], float), np.array(shape, int), weight=scheme)
-                w = np.asarray(g.weights, float)
-                if w.shape != (int(np.prod(shape)),) or not np.all(np.isfinite(w)):
-                    raise ValueError(f"weights have shape {w.shape} / non-finite entries")
+                g0 = UniformGrid(np.array(c["origin"], float), axes, np.array(shape, int))
+                g0.generate_cube(fname, np.zeros(int(np.prod(shape))), np.zeros((1, 3)), np.array([1]))
             except Exception as e:
-                rep.violation(f"weights:{scheme}:dim={dim}:construct:shape={tag}",
-                              f"UniformGrid(shape={shape}, weight={scheme!r}) does not construct: {type(e).__name__}: {e}",
-                              {"shape": shape, "axes": c["axes"], "scheme": scheme})
+                rep.violation(f"weights:route:from_cube:write:shape={'x'.join(map(str, shape))}", f"generate_cube raised {type(e).__name__}: {e}")
                 continue
-            dev = abs(float(w.sum()) / vol - 1.0)
-            if dev > float(bound) + W_SUM_SLACK:
-                rep.violation(f"weights:{scheme}:dim={dim}:sum-bound:shape={tag}",
-                              f"weight={scheme!r} shape={shape}: |sum(w)/V - 1| = {dev:.6g} exceeds sum(1/M_i) = {float(bound):.6g} "
-                              f"(sum(w) = {w.sum():.6g}, V = {vol}, min weight {w.min():.3g})",
-                              {"shape": shape, "axes": c["axes"], "scheme": scheme, "deviation": dev, "bound": float(bound)})
-            key = {"Rectangle": "rect", "Trapezoid": "trap", "Alternative": "alt"}.get(scheme)
-            if key:
-                want = float(Fraction(*c[key]) * vol)
-                err = float(np.max(np.abs(w - want))) / want
-                _stat("weights_rational_relerr", err)
-                if err > W_RTOL:
-                    rep.violation(f"weights:{scheme}:dim={dim}:value:shape={tag}",
-                                  f"weight={scheme!r} shape={shape}: documented weight {want!r}, implementation "
-                                  f"{w[int(np.argmax(np.abs(w - want)))]!r}",
-                                  {"shape": shape, "axes": c["axes"], "scheme": scheme, "spec": want})
-            elif scheme == "Fourier1" and (tier != "quick" or np.prod(shape) <= 200):
-                names = ["i", "j", "k"][:dim]
-                worst, at = 0.0, None
-                for flat, idx in enumerate(np.ndindex(*shape)):
-                    env = {nm: int(v) + 1 for nm, v in zip(names, idx)}
-                    want = vol * evaluate(c["fourier1"], env, "float")
-                    err = abs(w[flat] - want) / abs(want)
-                    if err > worst:
-                        worst, at = err, (idx, want, float(w[flat]))
-                _stat("weights_fourier1_relerr", worst)
-                if worst > W_F1_RTOL:
-                    rep.violation(f"weights:Fourier1:dim={dim}:value:shape={tag}",
-                                  f"weight='Fourier1' shape={shape}: at coordinates {at[0]} documented weight {at[1]!r}, "
-                                  f"implementation {at[2]!r}", {"shape": shape, "axes": c["axes"], "at": list(at[0])})
+            for scheme in SCHEMES:
+                n += 2
+                judge(c, scheme, lambda: UniformGrid.from_cube(fname, weight=scheme), c["volume"], "from_cube", True)
+                judge(c, scheme, lambda: UniformGrid.from_cube(fname, scheme, True)[0], c["volume"], "from_cube+data", False)
     rep.sample({"family": "weights", "shape": cases[-1]["shape"], "axes": cases[-1]["axes"], "volume": cases[-1]["volume"],
                 "trapezoid_w_over_V": cases[-1]["trap"], "bound": cases[-1]["bound"]})
     return n
@@ -332,10 +511,19 @@ def _molkey(zs, xs, sp, ex):
     return f"Z={zs}:X={[[float(v) for v in x] for x in xs]}:spacing={float(sp)}:extension={float(ex)}"
 
 
+def _default_scheme():
+    """Name of the scheme from_molecule uses when none is given (read from the signature, not pinned)."""
+    import inspect
+    from grid.cubic import UniformGrid
+    return inspect.signature(UniformGrid.from_molecule).parameters["weight"].default
+
+
 def _box_worker(case):
     """Replay one emitted case (rotate=False and rotate=True); returns (violations, stats)."""
     from grid.cubic import UniformGrid
-    _, mol, sp, ex, shape, origin, margin, encloses, centred = case
+    _, mol, sp, ex, shape, origin, margin, encloses, centred, trapw = case[:10]
+    extra = bool(case[10]) if len(case) > 10 else False       # harness flag: also the argument-form relations
+    trapw = float(Fraction(*trapw))
     zs = [a[0] for a in mol]
     xs = [[Fraction(*q) for q in a[1]] for a in mol]
     sp, ex = Fraction(*sp), Fraction(*ex)
@@ -366,6 +554,24 @@ def _box_worker(case):
                 out.append((f"from_molecule:box-arithmetic:origin:{key}",
                             f"from_molecule(rotate=False) {key}: origin {list(map(float, g.origin))} margin {gmargin}, "
                             f"specification of the shipped rule origin {[float(v) for v in origin]} margin {float(margin)}", info))
+        # weights of the scheme used when none is named: they sum to the box volume within sum(1/M_i); if
+        # that scheme is Trapezoid (signature) every weight is the documented V / prod(M + 1) of the specification
+        w = np.asarray(g.weights, float)
+        if gshape == list(shape):
+            vol = float(sp) ** 3 * float(np.prod(shape))
+            dev = abs(float(w.sum()) / vol - 1.0) if w.shape == (int(np.prod(shape)),) else float("inf")
+            if not dev <= sum(1.0 / m for m in shape) + W_SUM_SLACK:
+                out.append((f"from_molecule:weights:sum-bound:{key}",
+                            f"from_molecule(rotate=False) {key}: |sum(w)/V - 1| = {dev:.6g} exceeds sum(1/M_i) for shape {shape}", info))
+            if _default_scheme() == "Trapezoid":
+                werr = float(np.max(np.abs(w - trapw))) / trapw if w.shape == (int(np.prod(shape)),) else float("inf")
+                stats["box_weight_relerr"] = werr
+                if not werr <= W_RTOL:
+                    out.append((f"from_molecule:weights:value:{key}",
+                                f"from_molecule(rotate=False) {key}: weights {w[:3].tolist()}..., documented scheme Trapezoid "
+                                f"V / prod(M + 1) = {trapw!r}", info))
+        if extra:
+            out.extend(_box_forms(g, zs, znp, xnp, float(sp), float(ex), key, info))
         if gmargin < need - BOX_SLACK:
             out.append((f"from_molecule:enclosure:{cls}:{key}",
                         f"from_molecule(rotate=False) {key}: a nucleus is {gmargin:.6g} from the box boundary "
@@ -391,6 +597,20 @@ def _box_worker(case):
             # the eigenvector matrix of the inertia tensor enters the result twice (projection of the
             # nuclei, axes of the grid); the two uses agree only when it is symmetric
             fcls = "axes-symmetric" if np.allclose(frame, frame.T, atol=1e-9) else "axes-not-symmetric"
+            w = np.asarray(g.weights, float)
+            rvol = float(sp) ** 3 * float(np.prod(g.shape))        # |det(spacing * orthonormal frame)| * prod(M)
+            dev = abs(float(w.sum()) / rvol - 1.0) if w.ndim == 1 and len(w) == len(g.points) else float("inf")
+            if not dev <= float(np.sum(1.0 / np.asarray(g.shape, float))) + BOX_SLACK:
+                out.append((f"from_molecule:rotate:weights:sum-bound:{key}",
+                            f"from_molecule(rotate=True) {key}: |sum(w)/V - 1| = {dev:.6g} exceeds sum(1/M_i) for shape {list(map(int, g.shape))}", info))
+            if _default_scheme() == "Trapezoid":
+                wantw = rvol / float(np.prod(np.asarray(g.shape) + 1.0))
+                werr = float(np.max(np.abs(w - wantw))) / wantw if w.ndim == 1 and len(w) == len(g.points) else float("inf")
+                stats["box_rotate_weight_relerr"] = werr
+                if not werr <= BOX_SLACK:
+                    out.append((f"from_molecule:rotate:weights:value:{key}",
+                                f"from_molecule(rotate=True) {key}: weights {w[:3].tolist()}..., documented scheme Trapezoid "
+                                f"spacing^3 prod(M) / prod(M + 1) = {wantw!r} for shape {list(map(int, g.shape))}", info))
             if gmargin < need - BOX_SLACK:
                 out.append((f"from_molecule:rotate:enclosure:{fcls}:{rcls}:{key}",
                             f"from_molecule(rotate=True) {key}: a nucleus is {gmargin:.6g} from the box boundary "
@@ -405,19 +625,105 @@ def _box_worker(case):
     return out, stats, (len(zs), cls)
 
 
+def _same_grid(g, h):
+    return (np.array_equal(np.asarray(g.shape), np.asarray(h.shape)) and np.array_equal(g.origin, h.origin)
+            and np.array_equal(g.axes, h.axes) and np.array_equal(g.points, h.points) and np.array_equal(g.weights, h.weights))
+
+
+def _box_forms(g, zs, znp, xnp, sp, ex, key, info):
+    """Relations between argument forms of from_molecule (rotate=False; harness-only, a model adds
+    nothing): the arrays handed in stay untouched and a repeated call gives the same grid; integer
+    charges (and integer coordinates where they are integral) give the same grid; the order of the
+    atoms does not matter (dyadic inputs: every sum is exact); the scheme name is handed on."""
+    from grid.cubic import UniformGrid
+    out = []
+    z0, x0 = znp.copy(), xnp.copy()
+
+    def call(z, x, **kw):
+        return UniformGrid.from_molecule(z, x, spacing=sp, extension=ex, rotate=False, **kw)
+
+    def rel(tag, build):
+        try:
+            h = build()
+            if not _same_grid(g, h):
+                out.append((f"from_molecule:form:{tag}:{key}",
+                            f"from_molecule(rotate=False) {key}: {tag} gives a different grid (shape {list(map(int, h.shape))}, origin "
+                            f"{np.asarray(h.origin).tolist()}) than the float64 call (shape {list(map(int, g.shape))}, origin {np.asarray(g.origin).tolist()})", info))
+        except Exception as e:
+            out.append((f"from_molecule:form:{tag}:{key}", f"from_molecule(rotate=False) {key}: {tag} raised {type(e).__name__}: {e}", info))
+
+    rel("repeated-call", lambda: call(znp, xnp))
+    if not (np.array_equal(z0, znp) and np.array_equal(x0, xnp)):
+        out.append((f"from_molecule:form:arguments-modified:{key}", f"from_molecule {key} modified atcorenums / atcoords", info))
+    rel("integer-charges", lambda: call(np.array(zs, int), xnp))
+    if np.all(xnp == np.round(xnp)):
+        rel("integer-coordinates", lambda: call(np.array(zs, int), xnp.astype(int)))
+    if len(zs) > 1:
+        rel("atoms-reversed", lambda: call(znp[::-1].copy(), xnp[::-1].copy()))
+        rel("atoms-as-views", lambda: call(znp[::-1][::-1], np.asfortranarray(xnp)))
+    for scheme in SCHEMES:
+        try:
+            h = call(znp, xnp, weight=scheme)
+            d = UniformGrid(np.asarray(g.origin).copy(), np.asarray(g.axes).copy(), np.asarray(g.shape).copy(), weight=scheme)
+            if not (np.array_equal(h.points, g.points) and np.array_equal(h.weights, d.weights)):
+                out.append((f"from_molecule:form:weight={scheme}:{key}",
+                            f"from_molecule(rotate=False, weight={scheme!r}) {key}: weights {np.asarray(h.weights)[:3].tolist()}..., "
+                            f"UniformGrid(origin, axes, shape, {scheme!r}) of the same box {np.asarray(d.weights)[:3].tolist()}...", info))
+        except Exception as e:
+            out.append((f"from_molecule:form:weight={scheme}:{key}",
+                        f"from_molecule(rotate=False, weight={scheme!r}) {key} raised {type(e).__name__}: {e}", info))
+    return out
+
+
+def _box_defaults(rep):
+    """A call without options: the same grid as the call with the default values of the signature
+    spelled out, and the enclosure law for those values.  A single atom, and a homonuclear diatomic on
+    the z axis: the centre of charge is the midpoint of the extent and the principal axes are the
+    Cartesian ones, so that the enclosure law applies as it stands (no value is pinned here)."""
+    import inspect
+    from grid.cubic import UniformGrid
+    n = 0
+    for name, z, x in (("atom", [3.0], [[0.25, -0.5, 1.0]]), ("diatomic", [7.0, 7.0], [[0.0, 0.0, -1.0], [0.0, 0.0, 1.0]])):
+        key = f"from_molecule:defaults:{name}"
+        n += 1
+        rep.evaluated(1, ("box-defaults", name))
+        try:
+            dflt = {k: v.default for k, v in inspect.signature(UniformGrid.from_molecule).parameters.items()
+                    if v.default is not inspect.Parameter.empty}
+            sp, ex = float(dflt["spacing"]), float(dflt["extension"])
+            z, x = np.array(z), np.array(x)
+            g = UniformGrid.from_molecule(z, x)
+            h = UniformGrid.from_molecule(z, x, **dflt)
+            if not _same_grid(g, h):
+                rep.violation(key + ":signature", f"from_molecule({name}) without options differs from the call with the defaults of the "
+                                                  f"signature {dflt} (shape {list(map(int, g.shape))} vs {list(map(int, h.shape))})")
+            t = (x - np.asarray(g.origin, float)) @ np.linalg.inv(np.asarray(g.axes, float))
+            top = np.array(g.shape, float) - 1.0
+            steps = np.linalg.norm(np.asarray(g.axes, float), axis=1)
+            gmargin = float(np.min(np.minimum(t, top - t) * steps))
+            if not np.allclose(steps, sp, rtol=0, atol=1e-12) or gmargin < ex - sp - BOX_SLACK:
+                rep.violation(key + ":enclosure", f"from_molecule({name}) with the default options {dflt}: steps {steps.tolist()}, a nucleus is "
+                                                  f"{gmargin:.6g} from the boundary; required {ex} - {sp}")
+        except Exception as e:
+            rep.violation(key + ":raises", f"from_molecule({name}) with default options raised {type(e).__name__}: {e}")
+    return n
+
+
 def _family_box(rep: Report, tier: str, wd: Path):
     consts = ({"MaxAtoms": 2, "ZPool": {1, 8, 50}, "ZPool3": {1}} if tier == "quick"
               else {"MaxAtoms": 3, "ZPool": {1, 6, 8, 50}, "ZPool3": {1, 8, 50}})
     cfg = _cfg(wd, "MC_CubicBox.cfg", consts, ["MidpointBoxEncloses", "ShippedBoxEnclosesWhenCentred", "SizeRule", "EmitCase"])
-    res = tlc.run_tlc("MC_CubicBox", cfg, wd, workers=16, timeout=1500).require_ok("MC_CubicBox")
+    res = tlc.run_tlc("MC_CubicBox", cfg, wd, workers=WORKERS, timeout=1500).require_ok("MC_CubicBox")
     rep.tlc(res, "MC_CubicBox")
     _model_violation(rep, res, "box")
     cases = _tagged(res.stdout, "BOX")
     if not cases:
         raise tlc.MachineryError("MC_CubicBox emitted no case")
     import multiprocessing as mp
-    with mp.get_context("fork").Pool(16) as pool:
-        results = pool.map(_box_worker, cases, chunksize=64)
+    every = 16 if tier == "quick" else 5       # argument-form relations on every `every`-th case
+    jobs = [list(c) + [(i + rep.seed) % every == 0] for i, c in enumerate(cases)]
+    with mp.get_context("fork").Pool(WORKERS) as pool:
+        results = pool.map(_box_worker, jobs, chunksize=64)
     for (viol, stats, dk), case in zip(results, cases):
         rep.evaluated(2, ("box",) + dk)
         for k, v in stats.items():
@@ -425,8 +731,9 @@ def _family_box(rep: Report, tier: str, wd: Path):
         for key, what, info in viol:
             rep.violation(key, what, info)
     rep.set("box_cases", len(cases))
+    rep.set("box_form_cases", sum(1 for j in jobs if j[-1]))
     rep.sample({"family": "from_molecule", "tlc_case": cases[len(cases) // 2]})
-    return 2 * len(cases)
+    return 2 * len(cases) + sum(1 for j in jobs if j[-1]) + _box_defaults(rep)
 
 
 # --------------------------------------------------------------------------------------------
@@ -435,25 +742,41 @@ def _family_box(rep: Report, tier: str, wd: Path):
 NOTREC = -1000000
 
 
+def _obs_modules(wd: Path, module: str, ops: dict):
+    """Generated observation module with several operators {name: json file | None}."""
+    body = "\n".join(f'{op} == JsonDeserialize("{fn}")' if fn else f"{op} == <<>>" for op, fn in ops.items())
+    (wd / f"{module}.tla").write_text(f"---- MODULE {module} ----\nEXTENDS Json\n{body}\n====\n")
+
+
 def _family_closest(rep: Report, tier: str, wd: Path):
     from grid.cubic import UniformGrid
-    consts = {"Fine": 4 if tier == "quick" else 8}
-    _obs_module(wd, "Obs_closest", "ClosestObs", None)
+    stride = 3 if tier == "quick" else 1
+    consts = {"Fine": 4 if tier == "quick" else 8, "OutM": 1 if tier == "quick" else 2,
+              "OutStride": stride, "OutPhase": rep.seed % stride}
+    _obs_modules(wd, "Obs_closest", {"ClosestObs": None, "ClosestOutObs": None})
     cases, _ = _emit("MC_CubicClosest", wd, consts, "cases_closest.json")
-    obs, n = [], 0
+    obs, oobs, n = [], [], 0
     for gi, c in enumerate(cases, 1):
         dim = len(c["shape"])
         sign = "step<0" if min(c["step"]) < 0 else "step>0"
-        gkey = f"{sign}:shape={c['shape']}:origin={c['origin']}:steps={c['step']}"
+        den = int(c["den"])
+        gkey = f"{sign}:shape={c['shape']}:origin={c['origin']}:steps={c['step']}" + (f":den={den}" if den != 1 else "")
         rows = []
+        # the grid handed to the implementation: integer grid / den (exact), as float or int arrays
+        dt = int if c["repr"] == "int" else float
+        origin = np.array(c["origin"], dt) if den == 1 else np.array(c["origin"], float) / den
+        axes = np.diag(np.array(c["step"], dt)) if den == 1 else np.diag(np.array(c["step"], float)) / den
+        shape = np.array(c["shape"], int)
+        keep = (origin.copy(), axes.copy(), shape.copy())
         try:
-            g = UniformGrid(np.array(c["origin"], float), np.diag(np.array(c["step"], float)), np.array(c["shape"], int))
+            g = UniformGrid(origin, axes, shape)
         except Exception as e:
             rep.violation(f"closest_point:construct:{gkey}", f"UniformGrid {gkey} raised {type(e).__name__}: {e}")
             obs.append([[NOTREC, NOTREC]] * len(c["queries"]))
+            oobs.append([NOTREC] * len(c["outside"]))
             continue
-        for q in c["queries"]:
-            p = np.array([Fraction(*v) for v in q], float)
+        for qi, q in enumerate(c["queries"]):
+            p = np.array([Fraction(*v) for v in q], float) / den
             row = []
             for which in ("closest", "origin"):
                 try:
@@ -462,31 +785,71 @@ def _family_closest(rep: Report, tier: str, wd: Path):
                     row.append(NOTREC)
                     rep.violation(f"closest_point:{which}:{gkey}:raises",
                                   f"closest_point({p.tolist()}, {which!r}) on grid {gkey} raised {type(e).__name__}: {e}",
-                                  {"grid": c["shape"], "origin": c["origin"], "steps": c["step"], "point": p.tolist()})
+                                  {"grid": c["shape"], "origin": c["origin"], "steps": c["step"], "den": den, "point": p.tolist()})
             rows.append(row)
             n += 2
+            # representation of the query point: list, float32 (dyadic lattice points are exact in single
+            # precision), int array for integral points, and the same call repeated: the same index
+            alts = [("list", p.tolist()), ("float32", p.astype(np.float32)), ("repeat", p)]
+            if tier == "quick":
+                alts = [alts[qi % 3]]
+            if np.all(p == np.round(p)):
+                alts.append(("int", p.astype(int)))
+            for nm, alt in alts:
+                for wi, which in enumerate(("closest", "origin")):
+                    try:
+                        got = _int(g.closest_point(alt, which))
+                    except Exception as e:
+                        got = f"{type(e).__name__}: {e}"
+                    if got != row[wi] and row[wi] != NOTREC:
+                        rep.violation(f"closest_point:{which}:{gkey}:point-as-{nm}",
+                                      f"closest_point on grid {gkey}: point {p.tolist()} given as {nm} returns {got}, as float64 array {row[wi]}",
+                                      {"grid": c["shape"], "origin": c["origin"], "steps": c["step"], "den": den, "point": p.tolist()})
         obs.append(rows)
+        orow = []
+        for q in c["outside"]:
+            p = np.array([Fraction(*v) for v in q], float) / den
+            try:
+                orow.append(_int(g.closest_point(p, "closest")))
+            except Exception as e:
+                orow.append(NOTREC)
+                rep.violation(f"closest_point:closest-outside:{gkey}:raises",
+                              f"closest_point({p.tolist()}) (a point outside the box) on grid {gkey} raised {type(e).__name__}: {e}",
+                              {"grid": c["shape"], "origin": c["origin"], "steps": c["step"], "den": den, "point": p.tolist()})
+            n += 1
+        oobs.append(orow)
         rep.evaluated(2 * len(rows), ("closest", gi))
+        rep.evaluated(len(orow), ("closest-outside", gi))
+        # the query must not modify the grid or the arrays it was built from
+        for nm, was, now in (("origin", keep[0], origin), ("axes", keep[1], axes), ("shape", keep[2], shape),
+                             ("grid.origin", keep[0], g.origin), ("grid.axes", keep[1], g.axes)):
+            if not np.array_equal(was, np.asarray(now)):
+                rep.violation(f"closest_point:state:{gkey}:{nm}", f"closest_point changed {nm} of grid {gkey}: {was.tolist()} -> {np.asarray(now).tolist()}")
     rep.sample({"family": "closest_point", "grid": {k: cases[2][k] for k in ("shape", "origin", "step")},
                 "query": cases[2]["queries"][7], "observed[closest,origin]": obs[2][7]})
     with open(wd / "obs_closest.json", "w") as f:
         json.dump(obs, f)
-    _obs_module(wd, "Obs_closest", "ClosestObs", "obs_closest.json")
+    with open(wd / "obs_closest_out.json", "w") as f:
+        json.dump(oobs, f)
+    _obs_modules(wd, "Obs_closest", {"ClosestObs": "obs_closest.json", "ClosestOutObs": "obs_closest_out.json"})
     cfg = _cfg(wd, "MC_CubicClosest.cfg", {**consts, "Emit": False},
-               ["QueriesAreInside", "RoundingFindsNearest", "FlooringFindsCorner", "TiesAreHalves", "JudgeClosest", "JudgeCorner"])
-    res = tlc.run_tlc("MC_CubicClosest", cfg, wd, workers=16, timeout=1500).require_ok("MC_CubicClosest")
+               ["QueriesAreInside", "RoundingFindsNearest", "FlooringFindsCorner", "TiesAreHalves", "JudgeClosest", "JudgeCorner",
+                "OutsideIsOutside", "ClampedRoundingFindsNearest", "ClampIsNeutralInside", "JudgeOutside"])
+    res = tlc.run_tlc("MC_CubicClosest", cfg, wd, workers=WORKERS, timeout=1500).require_ok("MC_CubicClosest")
     rep.tlc(res, "MC_CubicClosest")
     _model_violation(rep, res, "closest")
     for t in _tagged(res.stdout, "MISMATCH"):
         _, gi, which, p, want, got = t
         c = cases[gi - 1]
+        den = int(c["den"])
         sign = "step<0" if min(c["step"]) < 0 else "step>0"
-        pt = [float(Fraction(*v)) for v in p]
-        rep.violation(f"closest_point:{which}:{sign}:shape={c['shape']}:origin={c['origin']}:steps={c['step']}:point={pt}",
-                      f"closest_point({pt}, {which!r}) on UniformGrid(origin={c['origin']}, axes=diag{tuple(c['step'])}, shape={c['shape']}) "
-                      f"returned index {got}; " + ("that is not a nearest node" if which == "closest" else "that is not the lower corner of the cell")
+        pt = [float(Fraction(*v)) / den for v in p]
+        o, st = ([v / den for v in c["origin"]], [v / den for v in c["step"]]) if den != 1 else (c["origin"], c["step"])
+        rep.violation(f"closest_point:{which}:{sign}:shape={c['shape']}:origin={o}:steps={st}:point={pt}",
+                      f"closest_point({pt}, {'closest' if which != 'origin' else which!r}) on UniformGrid(origin={o}, axes=diag{tuple(st)}, shape={c['shape']}) "
+                      f"returned index {got}; " + ("that is not the lower corner of the cell" if which == "origin" else "that is not a nearest node")
                       + f" (the specification's rounding rule gives {want})",
-                      {"shape": c["shape"], "origin": c["origin"], "steps": c["step"], "point": pt, "which": which, "spec": want, "observed": got})
+                      {"shape": c["shape"], "origin": o, "steps": st, "point": pt, "which": which, "spec": want, "observed": got})
     return n
 
 
@@ -506,6 +869,88 @@ def _cube_close(got, want, atol=0.0, rtol=0.0):
     tol = atol + rtol * np.abs(want)
     bad = err > tol
     return (not bool(np.any(bad))), float(np.max(err / np.where(tol > 0, tol, 1.0))) if err.size else 0.0
+
+
+def _cube_extra(rep, extra, files, obs):
+    """Forms of the data / geometry arrays, no atoms, wide coordinates, a file written twice (cases `extra`
+    of MC_CubicCube).  Values are printable without rounding unless the form itself rounds (float32)."""
+    from grid.cubic import UniformGrid
+    rng = np.random.default_rng(rep.seed + 7919)
+    n = 0
+    for c in extra:
+        shape, natom, form = c["shape"], c["natom"], c["form"]
+        npts = int(np.prod(shape))
+        key = f"cube:shape={'x'.join(map(str, shape))}:natom={natom}:form={form}"
+        n += 1
+        rep.evaluated(1, ("cube-form", form))
+        origin = np.round(rng.uniform(-5, 5, 3), 6)
+        axes = np.round(np.diag(rng.uniform(0.1, 0.9, 3)) + rng.uniform(-0.05, 0.05, (3, 3)), 6)
+        atcoords = np.round(rng.uniform(-4, 4, (natom, 3)), 6)
+        atnums = rng.integers(1, 30, natom)
+        pseudo = (atnums - 0.5).astype(float)
+        mant = rng.integers(100000, 1000000, npts) * rng.choice([-1, 1], npts)
+        expo = rng.integers(-6, 7, npts)
+        data = np.array([float(f"{int(m)}E{int(e) - 5}") for m, e in zip(mant, expo)])
+        want_data, dt = data, 0.0
+        if form == "cube3d":
+            arg = data.reshape(shape)
+        elif form == "fortran":
+            arg = np.asfortranarray(data.reshape(shape))
+        elif form == "strided":
+            buf = np.full(2 * npts, 7.0)
+            buf[::2] = data
+            arg = buf[::2]
+        elif form == "float32":
+            arg = data.astype(np.float32)
+            want_data, dt = arg.astype(float), DATA_RTOL
+        elif form == "int":
+            arg = (mant // 10) * rng.choice([1, 10], npts)          # at most six significant digits
+            want_data = arg.astype(float)
+        else:
+            arg = data
+        if form == "int-geometry":
+            origin, atcoords = rng.integers(-5, 6, 3), rng.integers(-4, 5, (natom, 3))
+            axes = np.diag(rng.integers(1, 4, 3)) + np.array([[0, 1, 0], [0, 0, 0], [-1, 0, 0]])
+            pseudo = atnums.copy()
+        if form == "wide-geometry":
+            origin = np.round(origin - 12345.0, 6)
+            atcoords = np.round(atcoords * 20000.0, 6)
+        fname = str(files / f"extra_{form}.cube")
+        kept = [np.array(a, copy=True) for a in (arg, origin, axes, atcoords, atnums, pseudo)]
+        try:
+            g = UniformGrid(origin, axes, np.array(shape, int))
+            if form == "rewrite":       # a longer file under the same name first
+                gl = UniformGrid(origin + 1.0, axes, np.array([3, 4, 5]))
+                gl.generate_cube(fname, np.arange(60.0) + 1.0, np.ones((4, 3)), np.array([1, 2, 3, 4]))
+            g.generate_cube(fname, arg, atcoords, atnums, pseudo_numbers=pseudo)
+            text = open(fname).read()
+            if form == "rewrite":
+                g.generate_cube(fname, arg, atcoords, atnums, pseudo_numbers=pseudo)
+                if open(fname).read() != text:
+                    rep.violation(f"{key}:second-write", "writing the same cube file a second time gives a different file")
+            obs.append({"shape": shape, "natom": natom, "counts": [len(x.split()) for x in text.splitlines()[2:]]})
+        except Exception as e:
+            rep.violation(f"{key}:write", f"generate_cube raised {type(e).__name__}: {e}", {"shape": shape, "natom": natom, "form": form})
+            continue
+        if not all(np.array_equal(a, b) for a, b in zip(kept, (arg, origin, axes, atcoords, atnums, pseudo))):
+            rep.violation(f"{key}:arguments-modified", "generate_cube modified an array handed in")
+        try:
+            g2, cube = UniformGrid.from_cube(fname, return_data=True)
+            g3 = UniformGrid.from_cube(fname)
+            checks = [("shape", g2.shape, shape, 0.0), ("origin", g2.origin, origin, 0.0), ("axes", g2.axes, axes, 0.0),
+                      ("grid-only:origin", g3.origin, origin, 0.0), ("grid-only:axes", g3.axes, axes, 0.0), ("grid-only:shape", g3.shape, shape, 0.0),
+                      ("atnums", cube["atnums"], atnums, 0.0), ("atcorenums", cube["atcorenums"], pseudo, 0.0),
+                      ("atcoords", cube["atcoords"], np.asarray(atcoords, float).reshape(natom, 3), 0.0), ("data", cube["data"], want_data, dt),
+                      ("points", g2.points, g.points, 0.0)]
+            for what, got, want, rtol in checks:
+                ok, _ = _cube_close(got, np.asarray(want, float), 0.0, rtol)
+                if not ok:
+                    rep.violation(f"{key}:bohr:{what}",
+                                  f"form {form}: {what} read back {np.asarray(got).ravel()[:6].tolist()}..., written "
+                                  f"{np.asarray(want).ravel()[:6].tolist()}... (rtol={rtol})", {"shape": shape, "natom": natom, "form": form, "file": fname})
+        except Exception as e:
+            rep.violation(f"{key}:bohr:read", f"from_cube raised {type(e).__name__}: {e}", {"file": fname})
+    return n
 
 
 def _family_cube(rep: Report, tier: str, wd: Path):
@@ -607,6 +1052,7 @@ def _family_cube(rep: Report, tier: str, wd: Path):
                     n += 1
                 except Exception as e:
                     rep.violation(f"{key}:angstrom-{variant}:read", f"from_cube raised {type(e).__name__}: {e}", {"file": fname})
+    n += _cube_extra(rep, emitted["extra"], files, obs)
     rep.sample({"family": "cube", "case": emitted["cases"][4], "angstrom_to_bohr": factor, "observed_tokens_per_line_tail": obs[-1]["counts"][-3:]})
     with open(wd / "obs_cube.json", "w") as f:
         json.dump(obs, f)
@@ -651,7 +1097,7 @@ def _tree_on_points(tree, pts, mode="float"):
 def _family_interp(rep: Report, tier: str, wd: Path):
     consts = {"Seed": rep.seed, "NRandom": 6 if tier == "quick" else 40, "NQuery": 3 if tier == "quick" else 4}
     cfg = _cfg(wd, "MC_CubicInterp.cfg", consts, ["DerivedPartialIsCalculus", "FullDegreePresent"])
-    res = tlc.run_tlc("MC_CubicInterp", cfg, wd, workers=16, timeout=1500).require_ok("MC_CubicInterp")
+    res = tlc.run_tlc("MC_CubicInterp", cfg, wd, workers=WORKERS, timeout=1500).require_ok("MC_CubicInterp")
     rep.tlc(res, "MC_CubicInterp")
     _model_violation(rep, res, "interpolation")
     with open(wd / "cases_interp.json") as f:
@@ -749,8 +1195,134 @@ def _family_interp(rep: Report, tier: str, wd: Path):
                     rep.violation(key, f"log-variant interpolation on {gname} of f = exp(q), q terms {poly['terms']}, derivative orders {nu}, "
                                        f"at {qf[i].tolist()}: specification {want[i]!r}, implementation {got[i]!r} (tolerance {INTERP_K * unit:.3g})",
                                   {"grid": gname, "terms": poly["terms"], "nu": nu, "point": [str(v) for v in queries[i]]})
+        n += _interp_call_forms(rep, g, gname, gi, cases, qf, gpts, box, hmin)
+    n += _interp_extra(rep, wd)
     rep.sample({"family": "interpolation", "grid_nodes_x": cases["nodes"][0][0], "query": cases["queries"][0][0],
                 "terms": cases["cubic"][2]["terms"], "nu": cases["cubic"][2]["partials"][7]["nu"]})
+    return n
+
+
+def _interp_call_forms(rep, g, gname, gi, cases, qf, gpts, box, hmin):
+    """Relations between call forms on one grid (harness-only; a model adds nothing): one query point
+    vs several at once, the logarithmic variant for several points at once, a repeated call, and the
+    arrays handed in stay untouched.  Tolerance: both sides satisfy the reproduction bound, hence
+    they differ by at most twice that bound."""
+    poly = cases["cubic"][2 + gi % 2]
+    scale = sum(abs(t[3]) * box[0] ** t[0] * box[1] ** t[1] * box[2] ** t[2] for t in poly["terms"]) or 1.0
+    vals = _tree_on_points(poly["partials"][0]["tree"], gpts)
+    n = 0
+    for nu in ([0, 0, 0], [1, 0, 0], [0, 1, 1], [0, 0, 2]):
+        key = f"interp:cubic:{gname}:call-form:nu={nu}"
+        tol = 2 * INTERP_K * EPS * scale / (hmin[0] ** nu[0] * hmin[1] ** nu[1] * hmin[2] ** nu[2])
+        try:
+            v0, q0 = vals.copy(), qf.copy()
+            many = np.asarray(g.interpolate(qf, vals, nu_x=nu[0], nu_y=nu[1], nu_z=nu[2]), float).ravel()
+            again = np.asarray(g.interpolate(qf, vals, nu_x=nu[0], nu_y=nu[1], nu_z=nu[2]), float).ravel()
+            single = np.array([np.asarray(g.interpolate(qf[i:i + 1], vals, nu_x=nu[0], nu_y=nu[1], nu_z=nu[2]), float).ravel()[0]
+                               for i in range(len(qf))])
+            rev = np.asarray(g.interpolate(qf[::-1], vals, nu_x=nu[0], nu_y=nu[1], nu_z=nu[2]), float).ravel()[::-1]
+            n += 4
+            rep.evaluated(4, ("interp", "call-form", gi, tuple(nu)))
+            if not (np.array_equal(v0, vals) and np.array_equal(q0, qf)):
+                rep.violation(key + ":arguments-modified", f"interpolate(nu={nu}) on {gname} modified the arrays handed in")
+            if not np.array_equal(many, again):
+                rep.violation(key + ":repeat", f"interpolate(nu={nu}) on {gname}: the same call repeated returns {again.tolist()} after {many.tolist()}")
+            for nm, other in (("single-point", single), ("reversed-points", rev)):
+                if other.shape != many.shape or not np.all(np.abs(other - many) <= tol):
+                    rep.violation(key + ":" + nm, f"interpolate(nu={nu}) on {gname}: {nm} calls give {other.tolist()}, "
+                                                  f"all points at once {many.tolist()} (tolerance {tol:.3g})",
+                                  {"grid": gname, "terms": poly["terms"], "nu": nu, "points": qf.tolist()})
+        except Exception as e:
+            rep.violation(key + ":raises", f"interpolate(nu={nu}) on {gname} raised {type(e).__name__}: {e}")
+    # logarithmic variant: all points at once = point by point (the main loop calls it point by point)
+    lpoly = cases["logv"][gi % len(cases["logv"])]
+    lvals = _tree_on_points(lpoly["partials"][0]["tree"], gpts)
+    fmag = math.exp(sum(abs(t[3]) * box[0] ** t[0] * box[1] ** t[1] * box[2] ** t[2] for t in lpoly["terms"]) or 1.0)
+    for nu in ([0, 0, 0], [2, 0, 0], [0, 1, 0], [0, 0, 3]):
+        key = f"interp:log:{gname}:call-form:nu={nu}"
+        tol = 2 * INTERP_K * EPS * fmag / (hmin[0] ** nu[0] * hmin[1] ** nu[1] * hmin[2] ** nu[2])
+        try:
+            v0 = lvals.copy()
+            many = np.asarray(g.interpolate(qf, lvals, use_log=True, nu_x=nu[0], nu_y=nu[1], nu_z=nu[2]), float).ravel()
+            single = np.array([np.asarray(g.interpolate(qf[i:i + 1], lvals, use_log=True, nu_x=nu[0], nu_y=nu[1], nu_z=nu[2]),
+                                          float).ravel()[0] for i in range(len(qf))])
+            n += 2
+            rep.evaluated(2, ("interp", "log-call-form", gi, tuple(nu)))
+            if not np.array_equal(v0, lvals):
+                rep.violation(key + ":arguments-modified", f"interpolate(use_log=True, nu={nu}) on {gname} modified the values handed in")
+            if single.shape != many.shape or not np.all(np.abs(single - many) <= tol):
+                rep.violation(key + ":single-point", f"interpolate(use_log=True, nu={nu}) on {gname}: point by point {single.tolist()}, "
+                                                     f"all points at once {many.tolist()} (tolerance {tol:.3g})",
+                              {"grid": gname, "terms": lpoly["terms"], "nu": nu, "points": qf.tolist()})
+        except Exception as e:
+            rep.violation(key + ":raises", f"interpolate(use_log=True, nu={nu}) on {gname} raised {type(e).__name__}: {e}")
+    return n
+
+
+def _interp_extra(rep, wd):
+    """Grids with negative steps / descending nodes (must reproduce) and non-diagonal axes (must
+    reproduce or reject): cases_interp_extra.json of MC_CubicInterp."""
+    from grid.basegrid import OneDGrid
+    from grid.cubic import Tensor1DGrids, UniformGrid
+    with open(wd / "cases_interp_extra.json") as f:
+        ex = json.load(f)
+    fq = lambda q: float(Fraction(*q))
+    grids = []
+    for c in ex["uniform"]:
+        axes = np.array([[fq(v) for v in row] for row in c["axes"]])
+        grids.append((f"uniform-{c['name']}{c['shape']}", c,
+                      lambda c=c, axes=axes: UniformGrid(np.array([fq(v) for v in c["origin"]]), axes, np.array(c["shape"], int)),
+                      [float(np.min(np.abs(axes[axes != 0])))] * 3))
+    for c in ex["tensor"]:
+        nodes = [[fq(v) for v in ax] for ax in c["nodes"]]
+        grids.append((f"tensor-{c['name']}{[len(a) for a in nodes]}", c,
+                      lambda nodes=nodes: Tensor1DGrids(*[OneDGrid(np.array(a), np.ones(len(a))) for a in nodes]),
+                      [float(np.min(np.abs(np.diff(a)))) for a in nodes]))
+    n = 0
+    for gname, c, build, hmin in grids:
+        try:
+            g = build()
+        except Exception as e:
+            rep.violation(f"interp:{gname}:construct", f"grid construction raised {type(e).__name__}: {e}")
+            continue
+        gpts = np.asarray(g.points, float)
+        box = [float(np.max(np.abs(gpts[:, d]))) for d in range(3)]
+        queries = [[Fraction(*q) for q in pt] for pt in c["queries"]]
+        qf = np.array([[float(v) for v in pt] for pt in queries])
+        jobs = [("cubic", poly, part["nu"], part["tree"]) for poly in ex["polys"]["cubic"] for part in poly["partials"]]
+        jobs += [("linear", poly, [0, 0, 0], poly["tree"]) for poly in ex["polys"]["linear"]]
+        for method, poly, nu, tree in jobs:
+            ptree = poly["partials"][0]["tree"] if method == "cubic" else poly["tree"]
+            vals = _tree_on_points(ptree, gpts)
+            scale = sum(abs(t[3]) * box[0] ** t[0] * box[1] ** t[1] * box[2] ** t[2] for t in poly["terms"]) or 1.0
+            want = np.array([float(evaluate(tree, dict(zip("xyz", pt)), "fraction")) for pt in queries])
+            key = f"interp:{method}:{gname}:poly={poly['terms'] if len(poly['terms']) <= 8 else 'dense'}:nu={nu}"
+            n += 1
+            rep.evaluated(1, ("interp-extra", method, gname, tuple(nu)))
+            info = {"grid": gname, "case": {k: v for k, v in c.items() if k != "queries"}, "terms": poly["terms"], "nu": nu,
+                    "points": qf.tolist()}
+            try:
+                got = np.asarray(g.interpolate(qf, vals, nu_x=nu[0], nu_y=nu[1], nu_z=nu[2], method=method), float).ravel()
+                if got.shape != want.shape:
+                    raise ValueError(f"result has shape {got.shape} for {len(qf)} points")
+            except Exception as e:
+                if c["must"]:
+                    rep.violation(key + ":raises", f"interpolate(method={method!r}, nu={nu}) on the rectilinear grid {gname} raised "
+                                                   f"{type(e).__name__}: {e}", info)
+                else:
+                    _stat("interp_nondiagonal_rejected", 1.0)
+                continue
+            tol = (INTERP_K * EPS * scale / (hmin[0] ** nu[0] * hmin[1] ** nu[1] * hmin[2] ** nu[2])) if method == "cubic" \
+                else LINEAR_RTOL * scale
+            err = float(np.max(np.abs(got - want)))
+            if c["must"]:
+                _stat(f"interp_extra_{method}_err_over_tol", err / tol)
+            if not err <= tol:
+                i = int(np.argmax(np.abs(got - want)))
+                rep.violation(key, f"{method} interpolation on {gname} of p with terms <<i,j,k,c>> = {poly['terms'][:8]}, derivative orders {nu}, "
+                                   f"at {qf[i].tolist()}: specification {want[i]!r}, implementation {got[i]!r} (tolerance {tol:.3g})"
+                                   + ("" if c["must"] else "; the axes of this grid are not diagonal: the call must reproduce the "
+                                      "polynomial or be rejected, not return a different number"), info)
     return n
 
 
@@ -821,16 +1393,72 @@ MUTANTS = [
     ("interp-log-second-derivative-sign", "interpolation", "return interpolated * np.array(bell_derivs)", "return interpolated * np.abs(np.array(bell_derivs))"),
     ("interp-linear-nearest", "interpolation", "interpolate = RegularGridInterpolator((x, y, z), values, method=method)",
      'interpolate = RegularGridInterpolator((x, y, z), values, method="nearest")'),
+    # ---- mutants for the clauses added by the audit (argument forms, unsorted nodes, big shapes, routes, ...)
+    ("along-axes-x-sorted", "layout", "            x = self.points[coords_x, 0]\n            return x, y, z",
+     "            x = np.unique(self.points[:, 0])\n            return x, y, z"),
+    ("c2i-strides-int16", "layout", "strides = np.empty(self.ndim, dtype=int)", "strides = np.empty(self.ndim, dtype=np.int16)"),
+    ("uniform-axes-cast-to-int", "layout", "        self._axes = axes\n", "        self._axes = axes.astype(int).astype(float)\n"),
+    ("i2c-python-int-only", "layout", "        if not index >= 0:\n", "        if not isinstance(index, int) or index < 0:\n"),
+    ("tensor-nodes-sorted", "layout", "                        oned_x.points,\n                        oned_y.points,\n                        oned_z.points,",
+     "                        np.sort(oned_x.points),\n                        oned_y.points,\n                        oned_z.points,"),
+    ("volume-rounded", "weights", "return np.abs(volume)", "return np.abs(np.rint(volume))"),
+    ("from-cube-drops-scheme", "weights", "            if not return_data:\n                return cls(origin, axes, shape, weight)",
+     "            if not return_data:\n                return cls(origin, axes, shape)"),
+    ("from-cube-data-drops-scheme", "weights", "return cls(origin, axes, shape, weight), cube_data", "return cls(origin, axes, shape), cube_data"),
+    ("from-molecule-drops-scheme", "from_molecule", "        return cls(origin, axes, shape, weight)\n\n    @classmethod\n    def from_cube",
+     "        return cls(origin, axes, shape)\n\n    @classmethod\n    def from_cube"),
+    ("from-molecule-com-in-input-dtype", "from_molecule", "com = np.dot(atcorenums, atcoords) / totz",
+     "com = (np.dot(atcorenums, atcoords) / totz).astype(atcoords.dtype)"),
+    ("from-molecule-default-ignored", "from_molecule", "shape = (max_coordinate - min_coordinate + 2.0 * extension) / spacing",
+     "shape = (max_coordinate - min_coordinate + 2.0 * min(extension, 4.0)) / spacing"),
+    ("box-trapezoid-no-plus-one", "from_molecule", "numpnt = np.prod(shape + 1.0)\n            weights = np.full", "numpnt = np.prod(shape + 0.0)\n            weights = np.full"),
+    ("closest-coord-in-point-dtype", "closest_point", "for i in range(self.ndim)])\n\n        if which",
+     "for i in range(self.ndim)], dtype=np.asarray(point).dtype)\n\n        if which"),
+    ("closest-point-list-rejected", "closest_point", "        step_sizes = np.diagonal(self.axes)\n",
+     "        step_sizes = np.diagonal(self.axes)\n        point = point.astype(float)\n"),
+    ("cube-append-mode", "cube", 'with open(fname, "w") as f:', 'with open(fname, "a") as f:'),
+    ("cube-data-memory-order", "cube", "row_data = data.flat[i : i + num_chunks]", 'row_data = data.ravel(order="K")[i : i + num_chunks]'),
+    ("cube-natom-at-least-one", "cube", 'f.write(f"{natom:5d} {x:11.6f} {y:11.6f} {z:11.6f}\\n")', 'f.write(f"{max(natom, 1):5d} {x:11.6f} {y:11.6f} {z:11.6f}\\n")'),
+    ("interp-log-in-place", "interpolation", "            values = np.log(values)\n", "            values = np.log(values, out=values)\n"),
+]
+
+# Proposed repairs of the known findings found by the audit: with the repair loaded the clause must be
+# quiet, without it the clause must report - this shows that the clause separates the two.
+# (name, family, [(old, new), ...], key prefix of the clause)
+_SORTED_SPLINE = (
+    "def _sorted_spline(x, y):\n    x = np.asarray(x)\n    order = np.argsort(x)\n"
+    "    return CubicSpline(x[order], np.asarray(y)[order])\n\n\nclass _HyperRectangleGrid(Grid):")
+FIXES = [
+    ("closest-point-clamped", "closest_point",
+     [("coord = np.rint(coord)", "coord = np.clip(np.rint(coord), 0, np.asarray(self.shape) - 1)")],
+     "closest_point:closest-outside:"),
+    ("interp-descending-nodes-sorted", "interpolation",
+     [("class _HyperRectangleGrid(Grid):", _SORTED_SPLINE),
+      ("            val = CubicSpline(\n                self.points[small_index:large_index, 2],", "            val = _sorted_spline(\n                self.points[small_index:large_index, 2],"),
+      ("            val = CubicSpline(\n                self.points[np.arange(1, self.shape[1] - 2) * self.shape[2], 1],",
+       "            val = _sorted_spline(\n                self.points[np.arange(1, self.shape[1] - 2) * self.shape[2], 1],"),
+      ("            val = CubicSpline(\n                self.points[np.arange(1, self.shape[0] - 2) * self.shape[1] * self.shape[2], 0],",
+       "            val = _sorted_spline(\n                self.points[np.arange(1, self.shape[0] - 2) * self.shape[1] * self.shape[2], 0],")],
+     "interp:cubic:*-[nd]e[gs]*:raises"),
+    ("interp-nondiagonal-rejected", "interpolation",
+     [("        if use_log:\n            values = np.log(values)\n",
+       "        _ax = getattr(self, \"axes\", None)\n        if _ax is not None and np.count_nonzero(_ax - np.diag(np.diagonal(_ax))) != 0:\n"
+       "            raise ValueError(\"Interpolation only works when the 'axes' attribute is a diagonal matrix.\")\n"
+       "        if use_log:\n            values = np.log(values)\n")],
+     "interp:*:uniform-nondiagonal-skewed*"),
 ]
 
 
-def _load_mutant(old, new):
+def _load_mutant(old, new=None):
+    """Load grid/cubic.py with textual replacements as module grid._c13_mutant (never written to /repo).
+    `old` is either one anchor (with `new`) or a list of (old, new) pairs."""
     import importlib.util
     import sys
-    src = Path("/repo/src/grid/cubic.py").read_text()
-    if src.count(old) < 1:
-        raise tlc.MachineryError(f"mutant anchor not found: {old!r}")
-    code = src.replace(old, new)
+    code = Path(os.environ.get("VERIF_REPO", "/repo") + "/src/grid/cubic.py").read_text()
+    for o, nw in ([(old, new)] if new is not None else old):
+        if code.count(o) < 1:
+            raise tlc.MachineryError(f"mutant anchor not found: {o!r}")
+        code = code.replace(o, nw)
     spec = importlib.util.spec_from_loader("grid._c13_mutant", loader=None)
     mod = importlib.util.module_from_spec(spec)
     mod.__package__ = "grid"
@@ -840,30 +1468,54 @@ def _load_mutant(old, new):
     return mod
 
 
-def selftest(tier: str = "quick") -> int:
-    """Each mutant must be reported as a violation by the family it belongs to."""
+def _with_module(mod, fam, tier):
+    """Run one family against the classes of `mod`; returns all violations (known ones included)."""
     import grid.cubic as real
     fams = {"layout": _family_layout, "weights": _family_weights, "from_molecule": _family_box,
             "closest_point": _family_closest, "cube": _family_cube, "interpolation": _family_interp}
+    saved = {k: getattr(real, k) for k in ("UniformGrid", "Tensor1DGrids", "_HyperRectangleGrid")}
+    for k in saved:
+        setattr(real, k, getattr(mod, k))
+    try:
+        rep = Report(PROP, tier, "model_checking")
+        wd = tlc.scratch(f"{PROP}-selftest")
+        fams[fam](rep, tier, wd)
+        return rep, list(rep.violations)
+    finally:
+        for k, v in saved.items():
+            setattr(real, k, v)
+
+
+def selftest(tier: str = "quick") -> int:
+    """Each mutant must be reported as a violation by the family it belongs to; each proposed repair of
+    a known finding must silence exactly the clause that reports the finding."""
+    import fnmatch
+    import grid.cubic as real
     only = os.environ.get("C13_MUTANTS")
     killed, missed = [], []
     for name, fam, old, new in MUTANTS:
         if only and name not in only.split(","):
             continue
-        mod = _load_mutant(old, new)
-        saved = {k: getattr(real, k) for k in ("UniformGrid", "Tensor1DGrids", "_HyperRectangleGrid")}
-        for k in saved:
-            setattr(real, k, getattr(mod, k))
-        try:
-            rep = Report(PROP, tier, "model_checking")
-            wd = tlc.scratch(f"{PROP}-selftest")
-            fams[fam](rep, tier, wd)
-            fresh = [v for v in rep.violations if rep._match_known(v["key"]) is None]
-        finally:
-            for k, v in saved.items():
-                setattr(real, k, v)
+        rep, viol = _with_module(_load_mutant(old, new), fam, tier)
+        fresh = [v for v in viol if rep._match_known(v["key"]) is None]
         (killed if fresh else missed).append(name)
         print(f"mutant {name:36s} [{fam}] -> {'VIOLATION x%d, e.g. %s' % (len(fresh), fresh[0]['key'][:110]) if fresh else 'MISSED'}", flush=True)
+    baseline = {}
+    for name, fam, pairs, prefix in FIXES:
+        if only and name not in only.split(","):
+            continue
+        if fam not in baseline:
+            baseline[fam] = _with_module(real, fam, tier)[1]
+        pat = prefix if any(ch in prefix for ch in "*?[") else prefix + "*"
+        before = [v for v in baseline[fam] if fnmatch.fnmatch(v["key"], pat)]
+        rep, viol = _with_module(_load_mutant(pairs), fam, tier)
+        after = [v for v in viol if fnmatch.fnmatch(v["key"], pat)]
+        fresh = [v for v in viol if rep._match_known(v["key"]) is None]
+        ok = bool(before) and not after and not fresh
+        (killed if ok else missed).append("fix:" + name)
+        print(f"repair {name:36s} [{fam}] -> clause {pat}: {len(before)} report(s) as shipped, {len(after)} with the repair, "
+              f"{len(fresh)} other fresh violation(s) -> {'SEPARATED' if ok else 'NOT SEPARATED'}"
+              + (f" e.g. {(after + fresh)[0]['key'][:120]}" if (after or fresh) else ""), flush=True)
     print(f"selftest: {len(killed)} killed, {len(missed)} missed {missed}")
     return 0 if not missed else 1
 
